@@ -86,6 +86,8 @@ Preds(e) ==
    P("C12", "Ssrcs", offer /\ d.parses /\ Unified(e) /\ OneSectionPerTransceiver(d, e.trs),
         \A k \in 1..Len(e.trs) : SsrcsOK(d, e.trs[k])),
    \* an application section that an applied description already carries stays (JSEP), whoever asked for it
+   P("C12", "Rids", offer /\ d.parses /\ Unified(e) /\ OneSectionPerTransceiver(d, e.trs),
+        \A k \in 1..Len(e.trs) : RidsOK(d, e.trs[k])),
    P("C12", "ApplicationIff", offer /\ d.parses /\ Unified(e),
         HasApplication(d) = (e.dc \/ e.cfg = "alwaysdc" \/ appNeg[e.who])),
    \* ---- C16
